@@ -12,6 +12,7 @@ CONSTANTS
   AllowStop = TRUE
   AllowCtrlC = FALSE
   AllowError = FALSE
+  AliveCheck = TRUE
 INVARIANT ProtocolOK
 INVARIANT ClosedAtEnd
 INVARIANT NoProblemLost
